@@ -84,6 +84,12 @@ def prefix_stream(ctx):
     for i in range(5 if quick else 14):
         rs = rng.choice([1, 3, 20])
         jobs.append({"history": small_history(rng, rs, 7 if quick else 10), "stride": 41 if quick else 1})
+    # pipeline configurations: decoders that are set up from the first bytes of a content stream meet cuts right behind a header group
+    for extra in ([{"comp": "gzip"}] if quick else [{"comp": "gzip"}, {"enc": "age"}, {"comp": "zstandard", "enc": "age"}, {"comp": "bzip2"}]):
+        h = {"config": dict({"rs": rng.choice([3, 20]), "cache": "file"}, **extra), "blobs": [{"seed": 1, "len": 700}, {"seed": 2, "len": 10}, {"seed": 3, "len": 1500}], "obs": [],
+             "calls": [{"op": "initialize"}, {"op": "mkdir", "name": "/d", "perm": 0o755}, {"op": "createfile", "name": "/d/f", "blob": 0}, {"op": "createfile", "name": "/g", "blob": 1},
+                       {"op": "createfile", "name": "/d/f", "blob": 2}, {"op": "chmod", "name": "/g", "perm": 0o600}]}
+        jobs.append({"history": h, "stride": 7 if quick else 1})
     data = []
     jobs = streams.replay_override(ctx, "history", jobs, lambda h: {"history": h, "stride": 1 if len(json.dumps(h)) < 4000 else 41})
     for j in jobs:
